@@ -245,6 +245,8 @@ func TestC01(t *testing.T) {
 
 	// (c) nesting bombs
 	c01Bombs(cfg, rec, pool)
+	// (d) operand-omission matrix (accepted sources are run)
+	c01Matrix(cfg, rec, pool)
 	// (a) corpus enumeration
 	c01Snippets(cfg, rec, pool)
 	complete := c01Corpus(cfg, rec, pool, dl)
@@ -287,15 +289,27 @@ func c01Bombs(cfg sb.Config, rec *sb.Rec, pool *sb.Pool) {
 		{"{", "", "}"}, {"if (1) {", "", "}"}, {"f(", "1", ")"}, {"$a[", "0", "]"}, {"1 + (", "1", ")"},
 		{"\"{$a[", "0", "]}\""}, {"function() { return ", "1", "; }"}, {"[1 => ", "1", "]"}, {"$a ? ", "1", " : 2"},
 		{"(", "", ""}, {"[", "", ""}, {"{", "", ""}, {"$a->b(", "", ""}, {"new A(", "", ""},
+		// lists whose elements start with a plain variable: the multiple-assignment look-ahead after "<variable>,"
+		{"[$a, ", "1", "]"}, {"f($a, ", "1", ")"}, {"$o->m($a, ", "1", ")"}, {"new A($a, ", "1", ")"}, {"[$a, $b, ", "1", "]"}, {"array($a, ", "1", ")"},
+		// right-recursive chains that never pass a bracket
+		{"$a = ", "1", ""}, {"++", "$a", ""}, {"$a ? 1 : ", "2", ""}, {"1 ?? ", "2", ""}, {"2 ** ", "2", ""}, {"@", "1", ""}, {"clone ", "$a", ""}, {"print ", "1", ""}, {"(int)", "1", ""}, {"fn() => ", "1", ""}, {"&", "$a", ""},
+		{"if (1) ", "1;", ""}, {"while (0) ", "1;", ""}, {"else ", "", ""}, {"?", "int $a", ""},
 	}
+	// a million-fold chain of the operators whose recursion needs no closing token: a parser without a depth limit
+	// for them overflows the Go stack only far beyond the depths above
+	mega := map[string]bool{"!": true, "~": true, "++": true, "$a = ": true, "-": true, "@": true, "(int)": true}
 	depths := []int{10, 100, 1000, 5000}
 	if cfg.Thorough() {
 		depths = append(depths, 20000, 100000)
 	}
 	i := 0
 	for bi, b := range bombs {
-		for _, d := range depths {
-			if d >= 100000 && bi > 3 && b.open != "new A(" {
+		ds := depths
+		if mega[b.open] {
+			ds = append(append([]int{}, depths...), 1000000)
+		}
+		for _, d := range ds {
+			if d >= 100000 && d < 1000000 && bi > 3 && b.open != "new A(" {
 				continue // the deepest bombs only for the plain bracket kinds (others parse in quadratic time)
 			}
 			for _, tmpl := range []bool{false, true} {
@@ -304,7 +318,7 @@ func c01Bombs(cfg sb.Config, rec *sb.Rec, pool *sb.Pool) {
 					continue
 				}
 				src := "$x = " + strings.Repeat(b.open, d) + b.mid + strings.Repeat(b.close, d) + ";\n"
-				if strings.HasPrefix(b.open, "{") || strings.HasPrefix(b.open, "if") {
+				if strings.HasPrefix(b.open, "{") || strings.HasPrefix(b.open, "if") || strings.HasPrefix(b.open, "while") || strings.HasPrefix(b.open, "else") || b.open == "?" {
 					src = strings.Repeat(b.open, d) + b.mid + strings.Repeat(b.close, d) + "\n"
 				}
 				if tmpl {
